@@ -5,7 +5,9 @@ d=$1; shift
 cd /repo || exit 2
 if ! git diff --quiet -- glm; then echo "/repo has local modifications; refusing"; exit 2; fi
 git apply "$d/patch.diff" || { echo "patch does not apply"; exit 2; }
-trap 'git -C /repo checkout -- . ' EXIT INT TERM
+# the checks rewrite evidence/ and replay/: keep the unchanged-tree records, a seeded run must never end up in a commit
+bk=$(mktemp -d /tmp/seed_evidence.XXXXXX); cp -a /verif/evidence $bk/evidence; cp -a /verif/replay $bk/replay 2>/dev/null
+trap 'git -C /repo checkout -- . ; rm -rf /verif/evidence /verif/replay; cp -a $bk/evidence /verif/evidence; cp -a $bk/replay /verif/replay 2>/dev/null; rm -rf $bk' EXIT INT TERM
 if [ -f "$d/demo.cpp" ]; then
   flags=$(head -1 "$d/demo.cpp" | sed -n 's/^\/\/ *flags: *//p')
   g++ -std=gnu++17 -I/repo $flags "$d/demo.cpp" -o /tmp/seed_demo 2>/tmp/seed_demo.err && { /tmp/seed_demo >/tmp/seed_demo.out 2>&1; echo "demo with patch: exit $?"; } || echo "demo does not compile with patch: $(head -3 /tmp/seed_demo.err)"
